@@ -276,9 +276,10 @@ def worker_alpha(cfg, tier):
     obs.append(Ob("delay_roundtrip_saturating", v, s_, cfg))
     tr3 = jx.Traced(lambda dd_: (dd_.sample()[1], dd_.mean(), dd_.quantile(0.3), dd_.sample()[0].alpha), dd)
     f3 = tr3.sym_inputs(it, "c")
-    s, mu, q, a2 = [x.item() for x in tr3.run(it, f3)]
-    v, _, s_ = smt.check([], z3.And(s == mu, mu == q, a2 == f3[0].item()), 30)
-    obs.append(Ob("sample_mean_quantile_agree_alpha_unchanged", v, s_, cfg))
+    from vlib import cg
+    obs.append(cg.prove_with_replay("sample_mean_quantile_agree_alpha_unchanged", cfg, it, tr3, f3, [],
+                                    lambda i, o: z3.And(o[0].item() == o[1].item(), o[1].item() == o[2].item(), o[3].item() == i[0].alpha.item()),
+                                    "trainable-sample-mean-quantile", "TrainableDist.sample / mean / quantile disagree (or sampling changes alpha)", grid=(0, 1)))
     v, _, s_ = smt.satisfiable([al > 0, al < 1], 30)
     obs.append(Ob("twin.alpha_interior", v, s_, cfg, kind="vacuity"))
     return obs
@@ -366,8 +367,12 @@ def worker_end_to_end(cfg, tier):
         o.replayed = _replay_end_to_end(cfg, float(jx.model_value(m, alpha)))
         o.model = dict(alpha=float(jx.model_value(m, alpha)))
     obs.append(o)
-    v, m, s = smt.satisfiable(pre + [alg.z(wS.windows["a"].seq.v[nb - 2, W - 1], "i") >= 0, alpha > 0, alpha < 1], 60)
-    obs.append(Ob("end-to-end: twin.regular sender, interior delay, consumed message", v, s, cfg, kind="vacuity"))
+    some_real = z3.Or(*[z3.And(wT.seq.v[k] >= 0, alg.z(wS.windows["a"].seq.v[k, W - 1], "i") >= 0) for k in range(nb)])
+    v, m, s = smt.satisfiable(pre + [some_real, alpha > 0, alpha < 1], 120)
+    obs.append(Ob("end-to-end: twin.regular sender, interior delay, some step sees a real message", v, s, cfg, kind="vacuity"))
+    differs = z3.Or(*[z3.And(wT.seq.v[k] >= 0, alg.z(wS.windows["a"].seq.v[k, W - 1], "i") != alg.z(wT.windows["a"].seq.v[k, n - 1], "i")) for k in range(nb)])
+    v, m, s = smt.satisfiable(pre + [differs], 120)
+    obs.append(Ob("end-to-end: twin.the delay matters (static window differs from the undelayed extended window)", v, s, cfg, kind="vacuity"))
     return obs
 
 
